@@ -14,6 +14,7 @@ namespace worlds
     bool force_surface = false;
     bool random_models = false;   // add random grains / composition models (C15, C16)
     int variant = 0;              // 0: standard; 1: different constants and geometry (a "second file")
+    double shift = 0;             // added to every x / longitude in the file (lattice units), e.g. 178 moves a spherical world across the dateline
   };
 
   inline std::string uniform_grains(const std::string &comps, int n, double a0)
@@ -31,7 +32,7 @@ namespace worlds
   inline std::string rich(const Opt &o)
   {
     const double s = o.spherical ? 1.0 : 1e5;
-    const double shift = o.variant == 1 ? 0.5 : 0.0;
+    const double shift = (o.variant == 1 ? 0.5 : 0.0) + o.shift;
     auto sq = [&](double x0, double x1, double y0, double y1)
     { return pts({{(x0+shift)*s,y0*s},{(x1+shift)*s,y0*s},{(x1+shift)*s,y1*s},{(x0+shift)*s,y1*s}}); };
     auto P = [&](double x, double y) { return pt({(x+shift)*s, y*s}); };
@@ -73,7 +74,7 @@ namespace worlds
                 ",\"grains models\":[" + uniform_grains("[1]", 1, 55) + "]"
                 ",\"velocity models\":[{\"model\":\"uniform raw\",\"velocity\":[0.001,0.002,0.003]}]}");
     std::string m = coord(o.spherical);
-    if (o.cross_section) m += ",\"cross section\":[" + pt({-4.5*s, -3.5*s}) + "," + pt({3.5*s, 2.5*s}) + "]";
+    if (o.cross_section) m += ",\"cross section\":[" + pt({(-4.5+o.shift)*s, -3.5*s}) + "," + pt({(3.5+o.shift)*s, 2.5*s}) + "]";
     if (o.force_surface) m += ",\"force surface temperature\":true,\"surface temperature\":273.5";
     if (o.variant == 1) m += ",\"potential mantle temperature\":1700,\"thermal expansion coefficient\":2e-5,\"specific heat\":1000,\"gravity model\":{\"model\":\"uniform\",\"magnitude\":10}";
     return world(m, f);
